@@ -177,7 +177,11 @@ class C07Engine(Engine):
                     uid = cand[tape.draw(len(cand))]
             d = uid_maps[node.version][uid]
             t = T('ref', ns=d.ns, name=d.name)
-            value = refcodec.gen_value(tape, models[node.version], t, prefer=prefs[node.version])
+            try:
+                value = refcodec.gen_value(tape, models[node.version], t, prefer=prefs[node.version])
+            except refcodec.Uninhabitable:
+                bump(res['probes'], 'uninhabitable_type_skipped')
+                return None
             if value is None:
                 return None
             ver = vers[node.version]
